@@ -618,9 +618,17 @@ class Body:
                 skip_first = True
         for el in (pj0[1:] if skip_first else pj0):
             if el == '*':
-                e = ('deref', e)
+                # *(&x) is x (environment of an inlined closure, reborrows)
+                if isinstance(e, tuple) and e[0] == 'ref':
+                    e = e[1]
+                else:
+                    e = ('deref', e)
             elif 'f' in el:
-                e = ('field', e, el['n'])
+                # a field of a freshly built closure environment / tuple is the captured / packed operand itself
+                if isinstance(e, tuple) and e[0] == 'agg' and e[1] in ('closure', 'tuple') and el['f'] < len(e[3]):
+                    e = e[3][el['f']]
+                else:
+                    e = ('field', e, el['n'])
             elif 'i' in el:
                 e = ('index', e, self.expr_local(el['i'], depth + 1, inline_user, seen))
             elif 'ci' in el:
